@@ -423,6 +423,18 @@ def workflow(rep, N, hloc, Ls, p, lam, Sech, ana, seed):
 			for i, v in want_loc.items():
 				net_b.nodes_by_index[i].inventory_policy.base_stock_level = v
 			tot_b = simulation(net_b, 300, rand_seed=seed % 10 ** 6, progress_bar=False)
+			# the policies of a pilot system that has already been simulated, moved onto a fresh copy of the system (one Policy object per node,
+			# installed with `node.inventory_policy = policy`): the policy then belongs to the node it is installed on
+			pilot = build()
+			for i, v in want_loc.items():
+				pilot.nodes_by_index[i].inventory_policy.base_stock_level = v
+			simulation(pilot, 25, rand_seed=7, progress_bar=False)
+			net_c = build()
+			for i in want_loc:
+				net_c.nodes_by_index[i].inventory_policy = pilot.nodes_by_index[i].inventory_policy
+			tot_c = simulation(net_c, 300, rand_seed=seed % 10 ** 6, progress_bar=False)
+		if tot_c != tot_b:
+			out.append('policies moved from an already simulated pilot system onto a fresh copy give total cost %r over 300 periods; the same levels set on a fresh copy give %r (same seed)' % (tot_c, tot_b))
 		rep.count('serial:analysis-then-install-then-simulate')
 		if abs(ana_a - ana) > 1e-9 * max(1, abs(ana)):
 			out.append('expected_cost(network=upstream-first numbering) = %r, parameter form %r' % (ana_a, ana))
